@@ -257,8 +257,19 @@ fn at_position(p: usize, node: Expr) -> Expr {
     }
 }
 
+/// the cells that are run a second time with the evaluating Context as the ONLY strong owner of its
+/// handle (`Op::ExecSole`): every cell whose handler is a context function or touches the evaluating
+/// context's handle
+pub fn sole_matrix() -> Vec<(usize, usize, usize)> {
+    matrix().into_iter().filter(|(k, a, _)| is_ctx_kind(*k) || (6..=9).contains(a)).collect()
+}
+
 pub fn matrix_case(k: usize, a: usize, p: usize) -> Case {
-    let mut case = Case::new(&format!("matrix:{}:{}:{}", KINDS[k], ACTIONS[a], POSITIONS[p]));
+    matrix_case_owned(k, a, p, false)
+}
+
+pub fn matrix_case_owned(k: usize, a: usize, p: usize, sole: bool) -> Case {
+    let mut case = Case::new(&format!("matrix{}:{}:{}:{}", if sole { "-sole-owner" } else { "" }, KINDS[k], ACTIONS[a], POSITIONS[p]));
     case.slots.push(CtxSpec { vars: vec![("x".into(), Val::int(1))], funcs: vec![] });
     // the evaluating context binds its own `min` / `max`: evaluations a handler starts on OTHER contexts
     // must still reach the global functions of those names
@@ -326,7 +337,11 @@ pub fn matrix_case(k: usize, a: usize, p: usize) -> Case {
         stmts.push(l);
     }
     stmts.push(rf("r"));
-    case.pre.push(Op::Exec { prog: Prog::Stmts(stmts), ctx: CtxRef::Slot(0) });
+    if sole {
+        case.pre.push(Op::ExecSole { prog: Prog::Stmts(stmts), slot: 0 });
+    } else {
+        case.pre.push(Op::Exec { prog: Prog::Stmts(stmts), ctx: CtxRef::Slot(0) });
+    }
     // an inner registration is visible to later evaluations (operators: a later *parse* sees them)
     let later_use = match a {
         2 => Some(call("nf", vec![lit_i(3)])),
@@ -474,7 +489,10 @@ fn nested_case(r: &mut Prng, big: bool) -> Case {
         case.slots[0].funcs.push((d, h));
     }
     case.slots[0].vars.push(("v".into(), Val::int(100)));
-    let eval = Op::Exec { prog: Prog::Stmts(vec![bin("=", rf("r"), prog), rf("r")]), ctx: CtxRef::Slot(0) };
+    // a quarter of the chains: the outermost evaluation runs on a Context that is the only strong owner of
+    // its handle (decided from values already drawn, so that the other samples of a seed stay what they were)
+    let stmts = Prog::Stmts(vec![bin("=", rf("r"), prog), rf("r")]);
+    let eval = if (depth + case.handlers.len()) % 4 == 0 { Op::ExecSole { prog: stmts, slot: 0 } } else { Op::Exec { prog: stmts, ctx: CtxRef::Slot(0) } };
     if r.chance(1, 3) {
         // swarm flag: a bystander thread registers and evaluates (independent names) while the
         // re-entrant evaluation runs
@@ -530,12 +548,12 @@ impl Prop for C14 {
                 "the handler's return value is a constant, so the outer result must equal that of the same program with plain handlers; inner results come from the reference model",
             ],
             fault_kinds: &["reenter_parse", "reenter_execute", "reenter_register", "reenter_ctx_lock", "preempt_in_call", "fresh_process"],
-            probes: &["matrix_cells_run", "nesting_depth_3_or_more", "inner_registration_used_later", "bare_name_locks_own_context", "bystander_registers_during_reentrant_evaluation", "deep_reentrant_chain"],
+            probes: &["matrix_cells_run", "nesting_depth_3_or_more", "inner_registration_used_later", "bare_name_locks_own_context", "bystander_registers_during_reentrant_evaluation", "deep_reentrant_chain", "sole_owner_cells_run"],
         }
     }
 
     fn n_indices(&self, tier: Tier) -> u64 {
-        matrix().len() as u64 + 20000 * tier.scale()
+        (matrix().len() + sole_matrix().len()) as u64 + 20000 * tier.scale()
     }
 
     fn run_index(&self, idx: u64, seed: u64, tier: Tier, rt: &mut Rt) -> Vec<Violation> {
@@ -550,6 +568,11 @@ impl Prop for C14 {
                 rt.probe("inner_registration_used_later");
             }
             matrix_case(k, a, p)
+        } else if (idx as usize) < cells.len() + sole_matrix().len() {
+            let (k, a, p) = sole_matrix()[idx as usize - cells.len()];
+            rt.probe("matrix_cells_run");
+            rt.probe("sole_owner_cells_run");
+            matrix_case_owned(k, a, p, true)
         } else {
             let mut r = Prng::derive(seed, "C14.nested", idx);
             if idx % 64 == 63 {
@@ -592,7 +615,7 @@ impl Prop for C14 {
                     acts += 1;
                     let kind = match &case.handlers[*hid].actions[*idx] {
                         Op::Parse { .. } => "reenter_parse",
-                        Op::Exec { .. } | Op::ParseExec { .. } => "reenter_execute",
+                        Op::Exec { .. } | Op::ParseExec { .. } | Op::ExecSole { .. } => "reenter_execute",
                         Op::HandleRead { .. } | Op::HandleWrite { .. } => "reenter_ctx_lock",
                         _ => "reenter_register",
                     };
